@@ -2,7 +2,11 @@
 C16 at system level: the registry invariant `RegOK` (Halo/Inv.lean) — keys sorted, each record stored
 under the key of its own assets and equal to the self-description of the pair it points to, no two
 records for one pair, no pair over identical assets — holds after every operation, and its consequences.
-Environment (`RawOK`): distinct assets have distinct raw identifiers; the chain allocates fresh addresses.
+Environment (`RawOK`): distinct LIVE assets (`Live`: registered denoms, live cw20 contracts) have distinct raw
+identifiers; the chain allocates fresh addresses.  Identifiers that are not live may share the raw identifier of a
+live asset (another spelling of a token address): a lookup sees raw identifiers only (`lookup_by_raw`), so the
+lookup theorems speak about raw identifiers in general and about the assets themselves when the queried assets are
+live.  The invariant itself does not depend on `RawOK` (the `hraw` arguments below are not used).
 -/
 import Halo.Proofs.RegOK
 
@@ -38,15 +42,59 @@ theorem lookup_both_orders {w : World} (hr : RegOK w) {e : Bytes × Record} (he 
     facLookup w e.2.a0 e.2.a1 = some e.2 ∧ facLookup w e.2.a1 e.2.a0 = some e.2 ∧ recMatches w e.2 :=
   Halo.RegOKP.lookup_both_orders hr he
 
-/-- two different unordered asset sets never resolve to the same record -/
+/-- a lookup depends on the queried assets through their raw identifiers only: a non-live identifier that shares
+the raw identifier of a live asset (an upper-case spelling of a token address) is looked up as that asset -/
+theorem lookup_by_raw {w : World} {a b a' b' : Asset} (ha : w.rawId a = w.rawId a') (hb : w.rawId b = w.rawId b') :
+    facLookup w a b = facLookup w a' b' :=
+  Halo.RegOKP.lookup_by_raw ha hb
+
+/-- two different unordered pairs of raw identifiers never resolve to the same record; hence neither do two
+different unordered sets of live assets -/
 theorem lookup_distinct {w : World} (hr : RegOK w) (hraw : RawOK w) {a b c d : Asset} {R : Record}
-    (h1 : facLookup w a b = some R) (h2 : facLookup w c d = some R) : (a = c ∧ b = d) ∨ (a = d ∧ b = c) :=
+    (h1 : facLookup w a b = some R) (h2 : facLookup w c d = some R) :
+    ((w.rawId a = w.rawId c ∧ w.rawId b = w.rawId d) ∨ (w.rawId a = w.rawId d ∧ w.rawId b = w.rawId c)) ∧
+    (Live w a → Live w b → Live w c → Live w d → (a = c ∧ b = d) ∨ (a = d ∧ b = c)) :=
   Halo.RegOKP.lookup_distinct hr hraw h1 h2
 
-/-- a lookup only ever returns a record over exactly the queried asset set -/
+/-- a lookup only ever returns a record over the queried unordered pair of raw identifiers — and, when the two
+queried assets are live, over exactly the queried asset set -/
 theorem lookup_sound {w : World} (hr : RegOK w) (hraw : RawOK w) {a b : Asset} {R : Record}
-    (h : facLookup w a b = some R) : (R.a0 = a ∧ R.a1 = b) ∨ (R.a0 = b ∧ R.a1 = a) :=
+    (h : facLookup w a b = some R) :
+    ((w.rawId R.a0 = w.rawId a ∧ w.rawId R.a1 = w.rawId b) ∨ (w.rawId R.a0 = w.rawId b ∧ w.rawId R.a1 = w.rawId a)) ∧
+    (Live w a → Live w b → (R.a0 = a ∧ R.a1 = b) ∨ (R.a0 = b ∧ R.a1 = a)) :=
   Halo.RegOKP.lookup_sound hr hraw h
+
+/-- position by position: each queried asset that is live IS the record's asset carrying its raw identifier -/
+theorem lookup_sound_fine {w : World} (hr : RegOK w) (hraw : RawOK w) {a b : Asset} {R : Record}
+    (h : facLookup w a b = some R) :
+    (w.rawId R.a0 = w.rawId a ∧ w.rawId R.a1 = w.rawId b ∧ (Live w a → R.a0 = a) ∧ (Live w b → R.a1 = b)) ∨
+    (w.rawId R.a0 = w.rawId b ∧ w.rawId R.a1 = w.rawId a ∧ (Live w b → R.a0 = b) ∧ (Live w a → R.a1 = a)) :=
+  Halo.RegOKP.lookup_sound_fine hr hraw h
+
+/-- whatever is queried, the record returned is over two distinct live assets -/
+theorem lookup_live {w : World} (hr : RegOK w) {a b : Asset} {R : Record} (h : facLookup w a b = some R) :
+    Live w R.a0 ∧ Live w R.a1 ∧ R.a0 ≠ R.a1 :=
+  Halo.RegOKP.lookup_live hr h
+
+/-- a lookup with live assets resolves to a pair contract over exactly those two (distinct) assets: the per-hop
+hypothesis of `C13W.RouteOK` / `hPa` of `C13.hop_effect` -/
+theorem lookup_pair_assets {w : World} (hr : RegOK w) (hraw : RawOK w) {a b : Asset} {R : Record}
+    (h : facLookup w a b = some R) (la : Live w a) (lb : Live w b) :
+    ∃ P, w.pair R.pair = some P ∧ ((P.a0 = a ∧ P.a1 = b) ∨ (P.a0 = b ∧ P.a1 = a)) ∧ a ≠ b :=
+  Halo.RegOKP.lookup_pair_assets hr hraw h la lb
+
+/-- the live assets are exactly those whose decimals the factory can query (so exactly those a pair can be created
+over), and liveness is never revoked: a registered denom stays registered, a cw20 contract stays a contract -/
+theorem live_iff_decimals {w : World} {a : Asset} : Live w a ↔ ∃ d, assetDecimals w a = .ok d :=
+  Halo.RegOKP.live_iff_decimals
+
+theorem live_exec {name : Asset → String} {w w' : World} {op : Op} {out : Out}
+    (h : exec name w op = .ok (w', out)) {a : Asset} (hl : Live w a) : Live w' a :=
+  Halo.RegOKP.live_exec h hl
+
+theorem live_step {name : Asset → String} (w : World) (op : Op) {a : Asset} (hl : Live w a) :
+    Live (step name w op) a :=
+  Halo.RegOKP.live_step w op hl
 
 /-- creating a pair for an already registered set (either order) or for two identical assets fails;
 creation succeeds only for registered denoms and live cw20 contracts, recording their true decimals -/
